@@ -134,6 +134,16 @@ theorem rule_read_as_written (buf : Array UInt8) (gs : List PGap) (hgs : gs ≠ 
       Depfile.G buf s' ∧ Rest buf s'.ofs after :=
   readItem_rule buf gs hgs name hne hid bs after c0 r0 hafter hc0 hwf fuel s g hr
 
+/-- A `pool` block: name and the depth its `depth` binding evaluates to (0 without one). -/
+theorem pool_read_as_written (buf : Array UInt8) (gs : List PGap) (hgs : gs ≠ []) (name : Bytes) (hne : name ≠ [])
+    (hid : ∀ c ∈ name, isIdentChar c true = true) (bs : List BindingText) (after : Bytes) (c0 : UInt8) (r0 : Bytes)
+    (hafter : after = c0 :: r0) (hc0 : c0 ≠ SP) (hwf : BindingsWF (fun n => n == bytesOfString "depth") bs after)
+    (d : Nat) (hd : poolDepth (bs.foldl (fun m b => Eval.insert m b.name (valueOf b.rhs)) []) = some d)
+    (fuel : Nat) (s : Scanner) (g : Depfile.G buf s)
+    (hr : Rest buf s.ofs (kwPool ++ (pgapBytes gs ++ (name ++ NL :: (bindingsBytes bs ++ after))))) :
+    ∃ s', readItem (fuel + 1) s = .ok (.stmt (.pool name d)) s' ∧ Depfile.G buf s' ∧ Rest buf s'.ofs after :=
+  readItem_pool buf gs hgs name hne hid bs after c0 r0 hafter hc0 hwf d hd fuel s g hr
+
 theorem default_read_as_written (buf : Array UInt8) (gs : List PGap) (hgs : gs ≠ []) (ps : List (PathText × List PGap))
     (hps : ps ≠ []) (after : Bytes) (hwf : PathsWF ps (NL :: after)) (hge : GapEnd (pathsBytes ps ++ NL :: after))
     (fuel : Nat) (s : Scanner) (g : Depfile.G buf s)
